@@ -1285,3 +1285,102 @@ package gedcom
 //@   props C10
 //@   allows *
 //@   result-fresh @tree
+
+// ---------------------------------------------------------------------------
+// C11 (sequential part) / C10: the workers that hand out certain matches. Each
+// worker w visits the left individuals w, w+ws, w+2ws, ... to the end (the
+// union over w = 0..ws-1 is every left individual exactly once: lemma below),
+// and hands out a pair only when neither side has been handed out before
+// (sentA for the left, sentB for the right side), marking both when it does.
+//@ lemma stride-covers props C11: forall(i, forall(n, implies(0 <= i && n > 0, 0 <= mod(i, n) && mod(i, n) < n && i >= mod(i, n) && mod(i - mod(i, n), n) == 0)))
+//@ lemma stride-unique props C11: forall(i, forall(n, forall(w, implies(0 <= i && n > 0 && 0 <= w && w < n && i >= w && mod(i - w, n) == 0, w == mod(i, n)))))
+//@ func createPointerJobs$1
+//@   props C11 C10
+//@   requires ws > 0 && w >= 0 && options != nil && options.sentA != options.sentB
+//@   ghost aSent bool = false
+//@   ghost bSent bool = false
+//@   ghost nLoadB int = 0
+//@   ghost nSend int = 0
+//@   ghost nStoreA int = 0
+//@   ghost nStoreB int = 0
+//@   ghost wsim real = 0.0
+//@   oncall sync.Map.Load#1 check left-guard: arg0 == options.sentA && options.sentA != options.sentB
+//@   oncall sync.Map.Load#1 do aSent = result1
+//@   oncall sync.Map.Load#2 check right-guard: arg0 == options.sentB && options.sentA != options.sentB
+//@   oncall sync.Map.Load#2 do bSent = result1; nLoadB = nLoadB + 1
+//@   oncall SurroundingSimilarity.WeightedSimilarity do wsim = result
+//@   oncall send do nSend = nSend + 1
+//@   oncall send check job: arg0 == jobs && arg1 != nil && arg1.Left == a && arg1.Right == b && arg1.certainMatch
+//@   oncall sync.Map.Store#1 check mark-left: arg0 == options.sentA && options.sentA != options.sentB
+//@   oncall sync.Map.Store#1 do nStoreA = nStoreA + 1
+//@   oncall sync.Map.Store#2 check mark-right: arg0 == options.sentB && options.sentA != options.sentB
+//@   oncall sync.Map.Store#2 do nStoreB = nStoreB + 1
+//@   loop 1 invariant stride: leftI >= w && mod(leftI - w, ws) == 0
+//@   loop 1 iter step: leftI == old(leftI) + ws
+//@   loop 1 iter guarded: implies(nSend > old(nSend), nLoadB > old(nLoadB) && !aSent && !bSent && b != nil && wsim >= options.SimilarityOptions.PreferPointerAbove)
+//@   loop 1 iter at-most-once: nSend - old(nSend) <= 1
+//@   loop 1 iter marks: nStoreA - old(nStoreA) == nSend - old(nSend) && nStoreB - old(nStoreB) == nSend - old(nSend)
+//@   loop 1 iter complete: implies(!aSent && nLoadB > old(nLoadB) && !bSent && wsim >= options.SimilarityOptions.PreferPointerAbove, nSend > old(nSend))
+//@   loop 1 nobreak
+//@ func createUniqueJobs$1
+//@   props C11 C10
+//@   requires ws > 0 && w >= 0 && options != nil && options.sentA != options.sentB
+//@   ghost nSend int = 0
+//@   ghost nStoreA int = 0
+//@   ghost nStoreB int = 0
+//@   oncall send do nSend = nSend + 1
+//@   oncall send check job: arg0 == jobs && arg1 != nil && arg1.Left == a && len(bs) > 0 && arg1.Right == bs[0] && arg1.certainMatch
+//@   oncall sync.Map.Store#1 check mark-left: arg0 == options.sentA && options.sentA != options.sentB
+//@   oncall sync.Map.Store#1 do nStoreA = nStoreA + 1
+//@   oncall sync.Map.Store#2 check mark-right: arg0 == options.sentB && options.sentA != options.sentB
+//@   oncall sync.Map.Store#2 do nStoreB = nStoreB + 1
+//@   loop 1 invariant stride: leftI >= w && mod(leftI - w, ws) == 0
+//@   loop 1 iter step: leftI == old(leftI) + ws
+//@   loop 1 iter iff: nSend - old(nSend) == ite(len(bs) > 0, 1, 0)
+//@   loop 1 iter marks: nStoreA - old(nStoreA) == nSend - old(nSend) && nStoreB - old(nStoreB) == nSend - old(nSend)
+//@   loop 1 nobreak
+//@ func IndividualNodes.ByPointer
+//@   only C11 C10
+//@   trusted
+//@   pure
+//@ func IndividualNodes.ByUniqueIdentifiers
+//@   only C11 C10
+//@   trusted
+//@   pure
+//@ func IndividualNode.UniqueIdentifiers
+//@   only C11 C10
+//@   trusted
+//@   pure
+//@ func IndividualNode.SurroundingSimilarity
+//@   only C11 C10
+//@   trusted
+//@   pure
+//@ func IndividualNodesCompareOptions.adjustTotal
+//@   only C11 C10
+//@   trusted
+//@   pure
+
+// C11 (sequential part): the winners. Certain matches are passed on and both
+// sides marked; of the remaining candidates, in order of similarity, a pair is
+// taken only when both sides are still unmatched, and both are marked (a
+// one-to-one matching, checked per iteration); afterwards every left and every
+// right individual that is still unmatched is passed on alone, exactly once.
+//@ func IndividualNodesCompareOptions.calculateWinners$1
+//@   props C11 C10
+//@   ghost nSend int = 0
+//@   oncall send do nSend = nSend + 1
+//@   oncall send check into: arg0 == winners
+//@   loop 1 iter certain: nSend - old(nSend) == ite(similarity.certainMatch, 1, 0)
+//@   loop 1 iter certain-marks: implies(similarity.certainMatch, found[similarity.Left] && found[similarity.Right])
+//@   loop 1 iter pooled: implies(!similarity.certainMatch, len(similarities) == old(len(similarities)) + 1)
+//@   loop 2 iter takes: nSend - old(nSend) == ite(!old(found[s.Left]) && !old(found[s.Right]), 1, 0)
+//@   loop 2 iter marks: implies(nSend > old(nSend), found[s.Left] && found[s.Right])
+//@   loop 2 iter keeps: implies(nSend == old(nSend), found[s.Left] == old(found[s.Left]) && found[s.Right] == old(found[s.Right]))
+//@   loop 3 iter left-rest: nSend - old(nSend) == ite(!found[left], 1, 0)
+//@   loop 3 nobreak
+//@   loop 4 iter right-rest: nSend - old(nSend) == ite(!found[right], 1, 0)
+//@   loop 4 nobreak
+//@ func SurroundingSimilarity.WeightedSimilarity
+//@   only C11 C10
+//@   trusted
+//@   pure
